@@ -293,8 +293,45 @@ def execute_e2e(case, which):
             cut, d1, d2 = spec["frag"]
             default = ("frag", cut, d1 / 16.0, d2 / 16.0)
         peers[hosts[name]] = ScriptedPeer(siminv.responder_for(inv, sim), [], default=default)
+        if spec.get("keep") is not None:
+            inv.set_keep_alive(spec["keep"])
         objs[name] = {"inv": inv, "sim": sim, "results": [], "tcp": cfg.get("tcp", False)}
     world = World(MultiPeer(peers))
+    if case.get("phases"):
+        # every phase is an event loop of its own (successive asyncio.run calls of the application); in phase i each object performs
+        # its i-th operation, the objects taking turns in the order given for that phase
+        now = 0.0
+        hang = exc = None
+        for i, order in enumerate(case["phases"]):
+            lp = VLoop(world, start=now, max_time=now + 1e5)
+
+            async def phase(i=i, order=order):
+                if i == 0:
+                    for name in which:
+                        await objs[name]["inv"].read_device_info()
+                for name in order:
+                    if name not in which or i >= len(case["seq"][name]):
+                        continue
+                    o = objs[name]
+                    try:
+                        val = await op_call(o["inv"], case["seq"][name][i])
+                        o["results"].append(("ok", snap(val)))
+                    except Exception as ex:
+                        o["results"].append(("exc", type(ex).__name__ + ":" + str(ex)[:80]))
+
+            out = lp.run(phase())
+            now = lp.vtime
+            lp.shutdown()
+            if out.hang or out.exc:
+                hang, exc = out.hang, out.exc
+                break
+        res = {}
+        for name in which:
+            o = objs[name]
+            tids = {tr.tid for tr in world.transports if tr._addr[0] == hosts[name]}
+            reqs = [(d[2:] if o["tcp"] else d) for (t, tid, d, failed) in world.tx if tid in tids]
+            res[name] = {"results": o["results"], "requests": reqs, "hang": repr(hang) if hang else None, "exc": repr(exc) if exc else None}
+        return res
     loop = VLoop(world, max_time=1e5)
 
     async def runner(name):
@@ -372,6 +409,15 @@ def e2e_job(job):
                     acc.fail(key, msg, c)
                 if len(acc.samples) < 1:
                     acc.sample(case)
+                if i % 2 == 1 or va == vb:
+                    # several event loops in a row (asyncio.run per operation), keep-alive on / off, the objects taking turns in varying order
+                    for keep in (True, False):
+                        pc = {"e2e": True, "phases": ["AB", "BA", "AB", "BA"],
+                              "objects": {"A": dict(case["objects"]["A"], keep=keep), "B": dict(case["objects"]["B"], keep=(keep if i % 4 < 2 else not keep))},
+                              "seq": {"A": [["runtime"], ["read_setting", "grid_export_limit"], ["runtime"], ["read_setting", "grid_export_limit"]],
+                                      "B": [["read_setting", "grid_export_limit"], ["runtime"], ["runtime"], ["read_setting", "grid_export_limit"]]}, "merge": []}
+                        for key, msg, c in run_case_e2e(acc, pc):
+                            acc.fail(key, msg, c)
                 if i % 2 == 0 or va == vb:
                     # both inverters deliver their answers in two datagrams / segments; the calls of the two objects overlap
                     fc = {"e2e": True, "objects": {"A": dict(case["objects"]["A"], frag=[9, la, la + 4]), "B": dict(case["objects"]["B"], frag=[(9, 14, 30)[i % 3], lb, lb + 3])},
